@@ -62,7 +62,12 @@ def make_inputs(d, rng):
                      "intensity": float(rng.randint(1, 1000)) * 1000.0, "id": i})
     files = {"fasta": fasta}
     files["MaxQuant"] = os.path.join(d, "evidence.txt")
-    filegen.write_maxquant(files["MaxQuant"], psms)
+    # MaxQuant evidence also has match-between-runs rows: an empty PEP cell, sometimes as the FIRST row of a peptide
+    mq_psms = list(psms)
+    for _ in range(rng.randint(0, 3)):
+        q = dict(rng.choice(psms), pep=None)
+        mq_psms.insert(rng.choice([0, 0, rng.randint(0, len(mq_psms))]), q)
+    filegen.write_maxquant(files["MaxQuant"], mq_psms)
     files["Perc"] = os.path.join(d, "perc.tab")
     filegen.write_percolator(files["Perc"], psms)
     files["FragPipe"] = os.path.join(d, "psm.tsv")
@@ -93,6 +98,9 @@ def table_violation(header, rows):
         return "duplicate-headers"
     if any(len(r) != len(header) for r in rows):
         return "row-length-differs-from-header"
+    import math
+    if any(not math.isfinite(float(r[5])) or not math.isfinite(float(r[6])) for r in rows):
+        return "non-finite-score-or-q-value-in-the-table"
     out = {"ok": [{"ids": r[0], "n": int(r[4]), "q": str(Fraction(float(r[5])).limit_denominator(10**9)),
                    "score": str(Fraction(float(r[6])).limit_denominator(10**12)), "rev": r[7] == "+"} for r in rows]}
     return pipeline_property_violation({}, out)
